@@ -18,6 +18,8 @@ import time
 import traceback
 
 VERIF = os.path.dirname(os.path.dirname(os.path.abspath(__file__)))
+# VERIF_OUT redirects evidence/ and replays/ (used when a check is pointed at a scratch checkout)
+OUT = os.environ.get("VERIF_OUT") or VERIF
 LEAN_DIR = os.path.join(VERIF, "lean")
 REPO = os.environ.get("VERIF_REPO", "/repo")
 DRIVER = os.path.join(LEAN_DIR, ".lake", "build", "bin", "driver")
@@ -491,17 +493,17 @@ def load_known(prop):
 # decision, evidence, replay
 # ----------------------------------------------------------------------------
 def write_replay(prop, kind, payload):
-    d = os.path.join(VERIF, "replays")
+    d = os.path.join(OUT, "replays")
     os.makedirs(d, exist_ok=True)
     h = hashlib.md5(json.dumps(payload, sort_keys=True, default=str).encode()).hexdigest()[:10]
     path = os.path.join(d, "%s-%s-%s.json" % (prop, kind, h))
     payload = dict(payload)
     payload["property"] = prop
     payload["kind"] = kind
-    payload["reproduce"] = "./check %s --replay %s" % (prop, os.path.relpath(path, VERIF))
+    payload["reproduce"] = "./check %s --replay %s" % (prop, os.path.relpath(path, OUT))
     with open(path, "w") as f:
         json.dump(payload, f, indent=1, default=str)
-    return os.path.relpath(path, VERIF)
+    return os.path.relpath(path, OUT)
 
 
 def write_evidence(ctx, violations, level="proof"):
@@ -548,7 +550,7 @@ def write_evidence(ctx, violations, level="proof"):
         "wall_s": round(time.time() - ctx.t0, 2),
         "violations": violations,
     }
-    d = os.path.join(VERIF, "evidence")
+    d = os.path.join(OUT, "evidence")
     os.makedirs(d, exist_ok=True)
     with open(os.path.join(d, ctx.prop + ".json"), "w") as f:
         json.dump(ev, f, indent=1, default=str)
